@@ -10,6 +10,7 @@
 import Scico.Proofs.OpAlgReject
 import Scico.Proofs.OpAlgStackTree
 import Scico.Proofs.OpAlgPlain
+import Scico.Proofs.OpAlgNonlin
 
 namespace Scico.Props.C05
 open Scico.OpAlg Scico.DType
@@ -64,6 +65,24 @@ theorem C05_run_eq_den_plain (e : LExpr K) (m : Meta) (hm : infer e = .ok m) (hl
   subst hmd
   rw [hr]
   exact ⟨fun i => hS.ev x i, fun j => hS.ad y j, Prod.ext h1 h2⟩
+
+/-- **Arbitrary trees (linear or not): the pointwise construction.**  For every accepted expression —
+    including non-linear `Operator` leaves anywhere — the closure scico builds evaluates `denF e`:
+    `(A ± B)(x) = A(x) ± B(x)`, `(c·A)(x) = c·A(x)`, `(A/c)(x) = A(x)/c`, `(−A)(x) = −A(x)`,
+    `(A(B))(x) = (A @ B)(x) = A(B(x))`, linear sub-expressions acting through their dense matrix
+    (whatever closed-form or generic branch the class-directed dispatch takes, reflected methods of
+    `MatrixOperator` / `Identity` included); `matrix_shape = dims e`; and the result is a plain
+    `Operator` exactly when the expression has a non-linear leaf. -/
+theorem C05_run_eq_denF (e : LExpr K) (m : Meta) (hm : infer e = .ok m)
+    (hp : PlainDiagProducts e) (hK : RealK K ∨ AllC e) (x : Vc K) :
+    (∀ i, ((run e).eval x).get i = if i < m.outShape.size then denF e x.get i else 0)
+    ∧ m.matrixShape = dims e ∧ (m.cls = .op ↔ ¬ Lin e) := by
+  obtain ⟨o, hb, hmd, hr⟩ := of_infer hm
+  have hI := build_denF e o hp hK hb
+  subst hmd
+  rw [hr]
+  refine ⟨fun i => hI.ef.ev x i, Prod.ext hI.hm hI.hn, ⟨fun hc hl => ?_, hI.nl⟩⟩
+  exact (build_sound e o hl hp hK hb).1.lin hc
 
 /-- the declared `matrix_shape` is the shape of the denoted matrix, and a linear expression is
     always built as a `LinearOperator` -/
@@ -245,6 +264,13 @@ def exBD : LExpr ℚ :=
 example : PlainShapes exBD ∧ Lin exBD := by simp [exBD, PlainShapes, Lin, Shape.isPlain]
 example : ∃ m, infer exBD = .ok m ∧ m.cls = .diag ∧ m.datShape = .plain [2, 3] := ⟨_, rfl, rfl, rfl⟩
 example : PlainShapes exE := by simp [exE, exM, exD, PlainShapes, Shape.isPlain]
+
+/-- a non-linear tree: `(N + M)(D) / 2` with `N(x) = (G x)²` -/
+def exN : LExpr ℚ :=
+  .sdiv (.comp (.add (.nonlin (.plain [3]) (.plain [3]) .f64 .f64 (fun i j => (i : ℚ) - j)) exM) exD) ⟨2, .pyInt⟩
+example : ¬ Lin exN := by simp [exN, Lin]
+example : PlainDiagProducts exN := by simp [exN, exM, exD, PlainDiagProducts]
+example : ∃ m, infer exN = .ok m ∧ m.cls = .op := ⟨_, rfl, rfl⟩
 
 end examples
 
